@@ -364,6 +364,42 @@ fn main() {
     }
     res.cov("record_pair_requests", pair_cases);
 
+    // ---- family 4: a connection made directly to the listener from a source port whose previous connection was
+    // attributed (and served) is as unattributed as any other direct connection
+    let mut reuse_cases = 0u64;
+    if replay.is_none() && !only_c03 {
+        w.set_rules(WS, None);
+        w.set_rules(HOSTGA, None);
+        w.set_rules(IMDS, Policy::simple("enforce-deny-grants-alice", "enforce", false).with(&["/a"], &[(0, "alice")]).to_item());
+        for (d, who) in [(WS, &whos[0]), (HOSTGA, &whos[0]), (IMDS, &whos[1])] {
+            for gap_ms in [0u64, 30] {
+                for n_first in [1usize, 2] {
+                    sport = if sport >= 29999 { 20000 } else { sport + 1 };
+                    let rec = AuditRec::to(d, who.uid, who.pid, who.is_root);
+                    for _ in 0..n_first {
+                        let first = run_case(&w, sport, Some(&rec), "GET", "/a/x");
+                        reuse_cases += 1;
+                        if first.status != Ok(200) {
+                            res.violation("port-reuse:attributed-connection-refused", &format!("attributed connection to {d} by {} got {:?}", who.label, first.status), json!({"family": "port-reuse", "dest": d, "who": who.label}));
+                        }
+                        std::thread::sleep(Duration::from_millis(gap_ms));
+                    }
+                    let second = run_case(&w, sport, None, "GET", "/a/x");
+                    reuse_cases += 1;
+                    nontrivial.insert(format!("reuse|{d}|{gap_ms}|{n_first}"));
+                    if second.status != Ok(421) || second.bytes.iter().sum::<usize>() != 0 {
+                        res.violation(
+                            "port-reuse:direct-connection-relayed",
+                            &format!("a direct connection from source port {sport}, {gap_ms} ms after {n_first} attributed connection(s) from that port to {d} by {}, got {:?} with {:?} bytes upstream (expected 421 and nothing upstream)", who.label, second.status, second.bytes),
+                            json!({"family": "port-reuse", "dest": d, "who": who.label, "gap_ms": gap_ms, "attributed_first": n_first}),
+                        );
+                    }
+                }
+            }
+        }
+    }
+    res.cov("port_reuse_requests", reuse_cases);
+
     // determinism gate: replay the first cases and demand identical observations
     let mut gate_ok = true;
     cur_policy = usize::MAX;
@@ -395,7 +431,7 @@ fn main() {
     for p in &panics {
         res.violation(&format!("panic:{}", p.split(" at=").nth(1).unwrap_or("?").split(' ').next().unwrap_or("?")), p, json!({"note": "panic while running the case product"}));
     }
-    res.cov("evaluations", total as u64 + ka_cases + pair_cases);
+    res.cov("evaluations", total as u64 + ka_cases + pair_cases + reuse_cases);
     res.cov("distinct_nontrivial", nontrivial.len() as u64);
     res.cov("expected_relayed", relayed_n);
     res.cov("expected_refused", refused_n);
@@ -405,7 +441,7 @@ fn main() {
     res.cov(
         "rule",
         format!(
-            "full product of {} destinations (incl. direct/no record, self, other) x {} callers x {} rule sets (endpoint under test gets the set, the other endpoints a contrasting one) x {} URLs x 2 methods, one fresh TCP connection with a chosen source port and an injected kernel audit record each; plus every ordered pair of rule sets (A,B) applied A,B,A to one kept-alive attributed connection (policy in force at request time must decide); plus every ordered pair of records over uid (0,1001) x two pids x is_root (0,1) on two consecutive connections per endpoint (each connection is judged by its own record); non-trivial = the reference says the request must be refused (distinct (dest, caller, rule set, url) counted)",
+            "full product of {} destinations (incl. direct/no record, self, other) x {} callers x {} rule sets (endpoint under test gets the set, the other endpoints a contrasting one) x {} URLs x 2 methods, one fresh TCP connection with a chosen source port and an injected kernel audit record each; plus every ordered pair of rule sets (A,B) applied A,B,A to one kept-alive attributed connection (policy in force at request time must decide); plus every ordered pair of records over uid (0,1001) x two pids x is_root (0,1) on two consecutive connections per endpoint (each connection is judged by its own record); plus a direct connection from the source port of 1 or 2 earlier attributed and served connections, 0 and 30 ms after them, per endpoint (must get 421, nothing upstream); non-trivial = the reference says the request must be refused (distinct (dest, caller, rule set, url) counted)",
             dests.len(), whos.len(), pols.len(), urls.len()
         ),
     );
